@@ -783,6 +783,7 @@ impl<'a> World<'a> {
                             2 => (data::scratchpad(&owner, &stranger, *counter as u64, &plain, PadForm::ForeignSigner), false),
                             3 => (data::scratchpad(&owner, &stranger, *counter as u64 + 1, &plain, PadForm::InflatedCounter), false),
                             5 => (data::scratchpad(&owner, &stranger, *counter as u64, &plain, PadForm::SubstitutedContent), false),
+                            6 => (data::scratchpad(&owner, &stranger, *counter as u64, &plain, PadForm::ByteSwappedCounter), false),
                             _ => (data::scratchpad(&other_owner, &stranger, *counter as u64, &plain, PadForm::Valid), false),
                         };
                         // what the owner would read if the pad were accepted
@@ -795,6 +796,7 @@ impl<'a> World<'a> {
                         2 => "pad_signed_by_other_key",
                         3 => "pad_with_inflated_counter",
                         5 => "pad_with_substituted_content",
+                        6 => "pad_with_byte_swapped_counter",
                         _ => "pad_of_other_owner",
                     });
                     pads.push((*peer % 8, entry.0.clone(), entry.1, entry.2, entry.3.clone()));
